@@ -110,6 +110,7 @@ def run(ctx):
     r14_declared_index_order(ctx)
     r15_row_order_is_column_order(ctx)
     groupby_and_union_order(ctx, "C17.R16")
+    r17_first_cell_needs_a_cell(ctx, cmpf)
 
 
 def _arms(fn):
@@ -329,6 +330,40 @@ def groupby_and_union_order(ctx, rule):
         st = [y for y in ast.walk(m_) if isinstance(y, ast.Assign)]
         ok = len(st) == 1 and isinstance(st[0].value, ast.Call) and call_name(st[0].value) == "sorted" and not st[0].value.keywords
         ctx.ob(rule, RES, "Table.where", st[0] if st else m_, "the union of several keyword selections is de-duplicated AND sorted into table order", ok, detail={"union": unparse(st[0].value) if st else None})
+
+
+def r17_first_cell_needs_a_cell(ctx, cmpf, rule="C17.R17"):
+    """'empty tables included': the scan arms decide HOW to compare from the first cell of the column (col[0]); one test of the match arm guards that look-up with
+    `col and ...`, the others relied on it -- on an empty column (an empty table, or an empty where() result) they raised IndexError."""
+    ctx.rule(rule, "Table._compare reads the first cell of a column (col[0]) only where the column is known to be non-empty: the look-up is dominated by a truthiness / length "
+                   "test of the column (a conjunct to its left, an enclosing guard, or an earlier `if not col: return`)")
+    from ..util import all_guards
+    COL = "col"
+    n = 0
+    for sub in [x for x in ast.walk(cmpf) if isinstance(x, ast.Subscript) and isinstance(x.value, ast.Name) and x.value.id == COL and isinstance(x.slice, ast.Constant) and x.slice.value in (0, -1)]:
+        n += 1
+        # (a) a conjunct `col` to the left in the same and-chain
+        ok = False
+        for a_ in ancestors(sub):
+            if isinstance(a_, ast.BoolOp) and isinstance(a_.op, ast.And):
+                idx = next((i for i, v in enumerate(a_.values) if any(y is sub for y in ast.walk(v))), None)
+                if idx is not None and any(isinstance(v, ast.Name) and v.id == COL for v in a_.values[:idx]):
+                    ok = True
+        # (b) an enclosing guard that is true only for a non-empty column
+        ok = ok or any(pol and ((isinstance(t, ast.Name) and t.id == COL) or (isinstance(t, ast.BoolOp) and isinstance(t.op, ast.And) and any(isinstance(v, ast.Name) and v.id == COL for v in t.values)))
+                       for t, pol in all_guards(sub, cmpf))
+        # (c) an earlier early exit `if not col: return ...` in an enclosing block
+        st = enclosing_stmt(sub)
+        for a_ in [st] + list(ancestors(st)):
+            p_ = parent(a_)
+            for body in (getattr(p_, "body", None), getattr(p_, "orelse", None)):
+                if isinstance(body, list) and a_ in body:
+                    for prev in body[:body.index(a_)]:
+                        if isinstance(prev, ast.If) and isinstance(prev.test, ast.UnaryOp) and isinstance(prev.test.op, ast.Not) and isinstance(prev.test.operand, ast.Name) and prev.test.operand.id == COL \
+                                and any(isinstance(y, ast.Return) for y in prev.body):
+                            ok = True
+        ctx.ob(rule, RES, "Table._compare", sub, "the first cell is looked at only when the column has one", ok, detail={"expression": unparse(enclosing_stmt(sub))[:90]})
+    ctx.floor(rule, "first-cell look-ups in Table._compare", n, 3)
 
 
 def sub_lohis_runs(ctx, rule):
@@ -688,6 +723,7 @@ def _drop_le(tree):
 
 
 CONTROLS = [
+    ("match decides from the first cell of an empty column", RES, M.delete_stmt("Table._compare", lambda st: isinstance(st, ast.If) and ast.unparse(st.test) == "not col"), "C17.R17"),
     ("group keys read from the leading columns", RES, M.replace_expr("Table.groupby", "self._indexes[:level]", "self._columns[:level]"), "C17.R16"),
     ("keyword union de-duplicated but not sorted", RES, M.replace_expr("Table.where", "sorted(set(selection))", "list(dict.fromkeys(selection))"), "C17.R16"),
     ("rows iterate in storage order", RES, M.replace_expr("Table.__iter__", "zip(*self[:])", "zip(*self._data.values())"), "C17.R15"),
